@@ -62,8 +62,15 @@ Definition set_same (a b : list str) : bool := subset_str a b && subset_str b a.
 (* oracles instantiated by tables observed from the implementation in this run *)
 Fixpoint assoc_f (t : list (spec_float * str)) (f : spec_float) : str :=
   match t with [] => [63%N] | (g, s) :: t' => if sf_eqb f g then s else assoc_f t' f end.
+Fixpoint assoc_n (t : list (char * str)) (c : char) : str :=
+  match t with [] => [c] | (d, s) :: t' => if N.eqb c d then s else assoc_n t' c end.
+Definition table_oracle5 (shows : list (spec_float * str)) (parses : list (str * option spec_float))
+                         (uppers lowers : list (char * str)) (graphs : list (str * list str)) : oracle :=
+  mkOracle (assoc_f shows) (fun s => match lookup s parses with Some r => r | None => None end)
+           (assoc_n uppers) (assoc_n lowers)
+           (fun s => match lookup s graphs with Some g => g | None => map (fun c => [c]) s end).
 Definition table_oracle (shows : list (spec_float * str)) (parses : list (str * option spec_float)) : oracle :=
-  mkOracle (assoc_f shows) (fun s => match lookup s parses with Some r => r | None => None end).
+  table_oracle5 shows parses [] [] [].
 Definition no_oracle : oracle := table_oracle [] [].
 
 (* indices (0-based) of the cases on which the check fails *)
